@@ -187,7 +187,7 @@ Qed.
 (* a call that reports success did exactly what the fault-free upsert does *)
 Lemma upsert_faulty_ok f n a a' : upsert_faulty f n a = (a', true) -> a' = upsert n a.
 Proof.
-  unfold upsert_faulty, upsert, delete_duplicates. destruct (f_list f); [discriminate|].
+  unfold upsert_faulty, upsert_faulty_on, upsert, delete_duplicates. destruct (f_list f); [discriminate|].
   destruct (delete_faulty (e_comment n) (f_remove f) 0 a a) as [a1 ok] eqn:E.
   destruct ok; [|discriminate]. destruct (f_add f); [discriminate|]. intro H. inversion H; subst.
   apply delete_faulty_prefix in E. destruct E as (pre & post & Es & A & O). rewrite (O eq_refl), app_nil_r in Es. subst pre.
@@ -199,7 +199,7 @@ Lemma upsert_faulty_err f n a a' : NoDup (map e_blob a) -> upsert_faulty f n a =
   (forall e, In e a' -> In e a) /\
   (forall e, In e a -> is_dup (e_comment n) e = false -> In e a').
 Proof.
-  intros N. unfold upsert_faulty. destruct (f_list f); [intro H; inversion H; subst; split; auto|].
+  intros N. unfold upsert_faulty, upsert_faulty_on. destruct (f_list f); [intro H; inversion H; subst; split; auto|].
   destruct (delete_faulty (e_comment n) (f_remove f) 0 a a) as [a1 ok] eqn:E.
   apply delete_faulty_prefix in E. destruct E as (pre & post & Es & A & _).
   assert (K : (forall e, In e a1 -> In e a) /\ (forall e, In e a -> is_dup (e_comment n) e = false -> In e a1)).
